@@ -116,7 +116,7 @@ func (fl *flipper) close() { _ = fl.f.Close() }
 
 func TestCheck(t *testing.T) {
 	s := &pbt.Suite{ID: "C14", Level: "fault_enumeration",
-		Rule: "three specs (wal, vlog, sst). gen: rapid-drawn record/entry sets, small in the quick tier so that whole files are enumerated (WAL: 1-2 segments of 1-4 typed records, payload 0..24, some 40..70; vlog: 1-2 files of 1-3 entries with internal keys, values 0..24, some 25..60 and 126..131 (varint boundary), arbitrary meta, 0/small/large expiry, AppendEntry or batched AppendEntries; SST: 1..7 sorted internal-key entries, block size 48..4096 so tables have 1..7 blocks, with/without bloom; the thorough tier draws 2-4x larger files). For each built file EVERY bit of every record / data block is flipped (one at a time) when the flippable region is <= the case's limit (label flips:exhaustive), otherwise every bit of the drawn records/blocks (label flips:picked); the 8 most significant bits of a WAL length field are skipped (label flip:length-top8-skipped; they make the decoder allocate 16 MiB..2 GiB) except in one static case of the thorough tier; SST index+footer bytes (evenly spaced, at most IndexBytes) are flipped too with the weaker requirement 'open fails or data identical'. static: fixed small files per spec, all bits. Oracle per flip and read path (wal: Replay, VerifyDir+Replay; vlog: ReadValue, Read+DecodeEntry, Iterate, VerifyDir+same for one bit per byte; sst: reopen from the corrupted file with no block/bloom cache and the index cache entry dropped, Search of every key, forward+reverse iteration): error, or record absent, or data identical to what was written at that position; never different data for an existing record, never an invented record, never a panic outside the SST opening call. Non-trivial = the case flipped bits inside key/value/payload/type/meta bytes (not only length fields, checksums or slack) and at least one such flip was detected (error/absent) rather than read back identical; distinct by case content.",
+		Rule: "three specs (wal, vlog, sst). gen: rapid-drawn record/entry sets, small in the quick tier so that whole files are enumerated (WAL: 1-2 segments of 1-4 typed records, payload 0..24, some 40..70; vlog: 1-2 files of 1-3 entries with internal keys, values 0..24, some 25..60 and 126..131 (varint boundary), arbitrary meta, 0/small/large expiry, AppendEntry or batched AppendEntries; SST: 1..7 sorted internal-key entries, block size 48..4096 so tables have 1..7 blocks, with/without bloom; the thorough tier draws 2-4x larger files). For each built file EVERY bit of every record / data block is flipped (one at a time) when the flippable region is <= the case's limit (label flips:exhaustive), otherwise every bit of the drawn records/blocks (label flips:picked); the 8 most significant bits of a WAL length field are skipped (label flip:length-top8-skipped; they make the decoder allocate 16 MiB..2 GiB) except in one static case of the thorough tier; SST index+footer bytes (evenly spaced, at most IndexBytes) are flipped too with the weaker requirement 'open fails or data identical'. static: fixed small files per spec, all bits. Oracle per flip and read path (wal: Replay, VerifyDir+Replay; vlog: ReadValue, Read+DecodeEntry, Iterate, VerifyDir+same for one bit per byte; sst: reopen from the corrupted file with no block/bloom cache and the index cache entry dropped, Search of every key, forward+reverse iteration): error, or record absent, or data identical to what was written at that position; never different data for an existing record, never an invented record, never a panic outside the SST opening call. Fourth spec (dbflip): a real database with block and bloom caches on writes 4..60 keys into 1..3 flushed SSTs (optionally one compaction), is closed, one generated bit of a data block is flipped per trial, the database is reopened and a generated script of Get / LSM.Prefetch (the call of the hot-key prefetcher) / forward and reverse iteration runs (also the sweep: prefetch every key, then get every key); same oracle, i.e. a cache warmed from the corrupted block must not turn it into valid data. Non-trivial = the case flipped bits inside key/value/payload/type/meta bytes (not only length fields, checksums or slack) and at least one such flip was detected (error/absent) rather than read back identical; distinct by case content.",
 		Assumptions: []string{
 			"a single flipped bit per trial; the rest of the directory is intact",
 			"only record bytes of WAL segments, record bytes of value-log files (not the 20-byte zero header) and SST data blocks are in the scope of the property; SST index/footer flips are only required to fail the open or leave data identical",
@@ -128,6 +128,8 @@ func TestCheck(t *testing.T) {
 	pbt.Add(s, &pbt.Spec[WalCase]{Name: "wal", Gen: genWal, Run: runWal, Static: staticWal, Quick: 24, Thorough: 240, Shards: 8})
 	pbt.Add(s, &pbt.Spec[VlogCase]{Name: "vlog", Gen: genVlog, Run: runVlog, Static: staticVlog, Quick: 16, Thorough: 240, Shards: 8})
 	pbt.Add(s, &pbt.Spec[SstCase]{Name: "sst", Gen: genSst, Run: runSst, Static: staticSst, Quick: 16, Thorough: 160, Shards: 8})
+	// database-level: caches on, prefetch/get/iterate scripts over a reopened database (dbflip_test.go)
+	pbt.Add(s, &pbt.Spec[DbFlipCase]{Name: "dbflip", Gen: genDbFlip, Run: runDbFlip, Static: staticDbFlip, Quick: 30, Thorough: 600, Shards: 8})
 	s.Extra("flip_enumeration", "within a case labelled flips:exhaustive every bit of every record/data block of the built file was flipped; the evidence labels 'flips' count the trials")
 	s.Extra("static_domain_enumerated_completely", true)
 	s.Main(t)
